@@ -13,11 +13,11 @@ RULE = ('cases = (abbreviation from a generated written tree, syntax in haml/pug
         'ids/classes (no blanks), attributes, single- and multi-line text, self-closing leaves, nameless elements with implicit names; indent in tab / 2 / 3 / 4 '
         'blanks / blank+tab / "--"; 4% narrow towers 14-70 levels deep. Three oracles per case: line-by-line header + indentation, tree-from-indentation == reference tree, == tree of the HTML rendering. '
         'Non-trivial = at least two elements; distinct by (abbreviation, syntax, indent)')
-ASSUMPTIONS = ['ids and class names without blanks; no free-standing text nodes; text without line-leading "|" and without trailing " |"',
+ASSUMPTIONS = ['ids and class names without blanks; text nodes stand inside an element (a top-level text node next to an element has no spelling of its own in these syntaxes); text without line-leading "|" and without trailing " |"',
                'a leaf without text ends with the caret position: trailing blanks of a header line are ignored',
                'attribute values are printed between double quotes (attribute options are C03)']
-FLOORS = {'quick': {'case': 22000, 'tower': 600}, 'thorough': {'case': 280000, 'tower': 9000}}
-REQUIRED_MONITORS = ['oracle:lines', 'oracle:tree-from-indent', 'oracle:tree-equals-html', 'oracle:one-tree-rendered-twice']
+FLOORS = {'quick': {'case': 22000, 'tower': 600, 'builtin': 3000}, 'thorough': {'case': 280000, 'tower': 9000, 'builtin': 3000}}
+REQUIRED_MONITORS = ['oracle:header-grammar', 'oracle:lines', 'oracle:tree-from-indent', 'oracle:tree-equals-html', 'oracle:one-tree-rendered-twice']
 N = {'quick': 2500, 'thorough': 19000}
 SYNTAXES = ['haml', 'pug', 'slim']
 NAMES = ['div', 'p', 'span', 'ul', 'li', 'section', 'x-y', 'table', 'tr', 'a2', 'h1', 'em', 'tbody', 'ol', 'article', 'ns:t', 'b']
@@ -30,7 +30,7 @@ def describe(tier):
 
 def shards(tier, seed):
     n = 10 if tier == 'quick' else 16
-    return [{'n': N[tier]} for _ in range(n)]
+    return [{'n': N[tier]} for _ in range(n)] + [{'builtin': True}]
 
 
 def rand_text(rng):
@@ -76,6 +76,10 @@ def gen(rng, depth=0, max_depth=3):
                 info['id'] = 'i%d' % rng.randint(1, 5)
             if rng.random() < 0.3:
                 info['attrs'] = [rand_attr(rng, k) for k in range(1, rng.choice([1, 1, 2, 2, 3, 5]) + 1)]
+            if not info['classes'] and n.name is not None and rng.random() < 0.08:
+                info['attrs'] = [('class', '""', rng.choice(['[class]', '[class=""]']))] + info['attrs']       # nothing to print as a shorthand: an ordinary attribute
+            if not info['id'] and rng.random() < 0.06:
+                info['attrs'] = info['attrs'] + [('id', '""', rng.choice(['[id]', '[id=""]']))]
             ids = ['#' + info['id']] if info['id'] else []
             cls = ['.' + c for c in info['classes']]
             if len(info['classes']) >= 2 and rng.random() < 0.15:
@@ -90,6 +94,13 @@ def gen(rng, depth=0, max_depth=3):
                 n.rep = rng.randint(2, 3)
             if depth < max_depth and rng.random() < (0.5 if max_depth <= 4 else 0.93):
                 n.children = gen(rng, depth + 1, max_depth)
+                if rng.random() < 0.15:
+                    # a text node among the children (`p>{a}+b`, `p>b+{t}`): a line of its own at the children's depth
+                    t = gen_abbr.Node('e')
+                    t.name = None
+                    t.text = rng.choice(['tx', 'two words', 'm1\nm2', 'q'])
+                    t.tag = {'textnode': True}
+                    n.children.insert(rng.randint(0, len(n.children)), t)
             if not n.children and n.text is None and n.name and rng.random() < 0.2:
                 n.selfclose = True
             n.tag = info
@@ -116,6 +127,9 @@ def expected_lines(nodes, depth, parent, out):
         for _ in range(n.rep or 1):
             if n.kind == 'g':
                 expected_lines(n.children, depth, parent, out)
+                continue
+            if isinstance(n.tag, dict) and n.tag.get('textnode'):
+                out.append({'depth': depth, 'name': None, 'info': None, 'text': n.text, 'sc': False, 'textnode': True})
                 continue
             name = n.name
             if name is None:
@@ -153,6 +167,20 @@ def check_lines(out, exp, syntax, indent):
     for e in exp:
         if li >= len(lines):
             return 'output ends before element %r' % e['name']
+        if e.get('textnode'):
+            tl = e['text'].split('\n')
+            width = max(len(x) for x in tl)
+            for x in tl:
+                if li >= len(lines):
+                    return 'output ends inside a text node'
+                if syntax == 'haml':
+                    want = indent * e['depth'] + (x.ljust(width) + ' |' if len(tl) > 1 else x)
+                else:
+                    want = indent * e['depth'] + '| ' + x
+                if lines[li] != want:
+                    return 'line %d: text node line %r, expected %r' % (li, lines[li], want)
+                li += 1
+            continue
         line = lines[li]
         li += 1
         k = 0
@@ -190,6 +218,23 @@ def check_lines(out, exp, syntax, indent):
 RE_NAME = re.compile(r'[A-Za-z][\w:-]*')
 
 
+def header_problem(out, syntax, indent):
+    """every element line begins with a name and / or non-empty #id / .class shorthands: a bare `#` or `.`, or a line that begins with the
+    attribute list or with nothing, is not an element of the syntax (returns None or the offending line)"""
+    for line in out.split('\n'):
+        body = line
+        while body.startswith(indent):
+            body = body[len(indent):]
+        if (syntax != 'haml' and body.startswith('| ')) or body.rstrip(' ') == '|' or (syntax == 'haml' and body.endswith(' |')):
+            continue
+        if body.startswith('<') or body.startswith('doctype ') or (syntax == 'haml' and body[:1] not in '%.#' and body.strip()):
+            continue        # raw text (doctype, comment snippets, a haml text line)
+        head = re.match(r'[^\s(/]*', body).group(0)
+        if not head or re.search(r'[#.](?=[#.]|$)', head) or (syntax == 'haml' and head == '%'):
+            return line
+    return None
+
+
 def tree_from_indent(out, syntax, indent):
     "generic reader: rebuilds (name, children) from indentation alone"
     root = []
@@ -204,6 +249,8 @@ def tree_from_indent(out, syntax, indent):
             raise outparse.OutParseError('blank line')
         if (syntax != 'haml' and body.startswith('| ')) or (syntax == 'haml' and body.endswith(' |')) or body.rstrip(' ') == '|':
             continue        # line of a multi-line text (an empty text line is the bare marker; its haml padding may look like indentation)
+        if syntax == 'haml' and body[:1] not in '%.#':
+            continue        # a line of plain text
         if syntax == 'haml':
             name = RE_NAME.match(body[1:]).group(0) if body.startswith('%') else 'div'
         else:
@@ -223,6 +270,8 @@ def exp_tree(exp):
     root = []
     stack = [(-1, root)]
     for e in exp:
+        if e.get('textnode'):
+            continue
         while stack[-1][0] >= e['depth']:
             stack.pop()
         node = [e['name'], []]
@@ -253,6 +302,11 @@ class Mon:
             ctx.violation('exception', case, {'exc': list(core.exc_site(r[1])), 'msg': str(r[1])[:100]})
             return
         out = r[1]
+        ctx.mon('oracle:header-grammar')
+        hp = header_problem(out, syntax, indent)
+        if hp is not None:
+            ctx.violation('line-is-not-an-element', case, {'line': hp, 'output': out[:400]})
+            return
         why = check_lines(out, exp, syntax, indent)
         if why:
             ctx.violation('line-mismatch', case, {'why': why, 'output': out[:500]})
@@ -309,7 +363,48 @@ class Mon:
             ctx.sample({'abbreviation': abbr, 'syntax': syntax, 'indent': indent, 'output': out[:400]})
 
 
+def builtin_sweep(ctx):
+    """every built-in markup snippet (the ones with empty id tabstops - select, input:text, textarea ... - included), alone and with a text /
+    lorem child and an empty class: well-formed element lines, and the tree read from the indentation is the tree of the HTML rendering"""
+    import emmet
+    import emmet.snippets.html as RH
+    keys = sorted(set(k for ks in RH.snippets for k in ks.split('|')))
+    for key in keys:
+        for form in ('%s', 'x-p>%s', '%s>lorem3', 'x-p>%s+{t}', 'div[class]>%s', '%s#'):
+            abbr = form % key
+            for syntax in SYNTAXES:
+                ctx.ev('builtin')
+                ctx.mon('oracle:header-grammar')
+                case = {'builtin': True, 'abbr': abbr, 'syntax': syntax, 'indent': '\t'}
+                r = core.call(emmet.expand, abbr, {'syntax': syntax})
+                rh = core.call(emmet.expand, abbr, {'syntax': 'html', 'options': {'output.format': False, 'output.selfClosingStyle': 'xml'}})
+                if r[0] == 'exc' or rh[0] == 'exc':
+                    if (r[0] == 'exc') != (rh[0] == 'exc'):
+                        ctx.violation('exception', case, {'exc': list(core.exc_site(r[1] if r[0] == 'exc' else rh[1]))})
+                    continue
+                out = r[1]
+                hp = header_problem(out, syntax, '\t')
+                if hp is not None:
+                    ctx.violation('line-is-not-an-element', case, {'line': hp, 'output': out[:300]})
+                    continue
+                try:
+                    o2 = '\n'.join(l for l in out.split('\n') if not l.strip().startswith('<') and not l.strip().startswith('doctype '))
+                    ti = tree_from_indent(o2, syntax, '\t') if o2.strip() else []
+                    th = html_tree(re.sub(r'<!DOCTYPE[^>]*>', '', rh[1]))
+                except (outparse.OutParseError, AttributeError) as e:
+                    ctx.mon('workload:builtin-not-readable')
+                    continue
+                ctx.mon('oracle:tree-equals-html')
+                if ti != th:
+                    ctx.violation('html-tree-mismatch', case, {'from_indentation': ti, 'from_html': th, 'output': out[:300]})
+                else:
+                    ctx.seen(('builtin', abbr, syntax))
+
+
 def run_shard(desc, ctx):
+    if desc.get('builtin'):
+        builtin_sweep(ctx)
+        return
     mon = Mon(ctx)
     rng = ctx.rng
     pr = probes.Probes().add('emmet.markup.format.indent_format:element').add('emmet.markup.format.indent_format:push_value') \
@@ -335,6 +430,13 @@ def run_shard(desc, ctx):
 
 
 def replay(case, ctx):
+    if case.get('builtin'):
+        import emmet
+        ctx.ev('replay')
+        r = core.call(emmet.expand, case['abbr'], {'syntax': case['syntax']})
+        if r[0] == 'ok' and header_problem(r[1], case['syntax'], '\t') is not None:
+            ctx.violation('line-is-not-an-element', case, {'output': r[1][:300]})
+        return
     Mon(ctx).check(case['abbr'], case['expected'], case['syntax'], case['indent'])
 
 
